@@ -31,6 +31,7 @@ class HandlerInfo(object):
         self.charge = options.get("charge")
         self.supported = False
         self.claimed = False
+        self.root_mode = False
         self.potential = self.bound = None
         pot_ref = options.get("potential")
         if pot_ref is None and "estimator" in options:
@@ -39,9 +40,11 @@ class HandlerInfo(object):
         if pot_ref is None:
             return
         if any(n in self.names for n in ("FixedSeparationsEventHandlerWithPiecewiseConstantBoundingPotential",
-                                         "RootUnitActiveTwoCompositeObjectSummedBoundingPotentialEventHandler",
                                          "RootUnitActiveTwoLeafUnitEventHandler")):
             return
+        # a composite object that moves as a whole: every one of its leaf units is active, the rates are sums over
+        # all pairs of leaf units of the two composite objects
+        self.root_mode = "RootUnitActiveTwoCompositeObjectSummedBoundingPotentialEventHandler" in self.names
         if not any("BoundingPotential" in n or "CellVeto" in n for n in self.names):
             return
         config = configparser.ConfigParser()
@@ -89,6 +92,8 @@ class Thinning(Monitor):
         self.draw = None
         self.instate = {}
         self.rejected_handler = None
+        self.in_event_time = None
+        self.drawn_from = {}
         import random
         self.rng = random.Random(ctx.scenario["seed"] ^ 0xC04)
         # rare inputs: a random subset of the confirmation draws is forced close to 0 or close to the bound
@@ -114,6 +119,8 @@ class Thinning(Monitor):
 
     # -- domination at every separation a run visits -----------------------------------------------------------------
     def on_send_event_time_begin(self, handler, args):
+        self.in_event_time = handler
+        self.drawn_from.pop(handler, None)
         if not args:
             return
         info = self.info(handler)
@@ -126,6 +133,10 @@ class Thinning(Monitor):
     def _pairs(self, info, records):
         leaves = [r for r in records if r[4]]
         active = [r for r in leaves if r[2] is not None]
+        if info.root_mode:
+            if not active or len(set(r[0][:1] for r in active)) != 1 or len(set(map(tuple, (r[2] for r in active)))) != 1:
+                return None, []
+            return active, [r for r in leaves if r[0][:1] != active[0][0][:1]]
         if len(active) != 1:
             return None, []
         active = active[0]
@@ -137,10 +148,12 @@ class Thinning(Monitor):
 
     def _check_domination(self, info, records, where):
         ctx = self.ctx
-        active, targets = self._pairs(info, records)
-        if active is None:
+        actives, targets = self._pairs(info, records)
+        if actives is None:
             return
-        for target in targets:
+        if not info.root_mode:
+            actives = [actives]
+        for active, target in ((a, t) for a in actives for t in targets):
             separation = nearest_image(active[1], target[1])
             charges = info.charges(ctx, active[0], target[0])
             true = info.potential.derivative(list(active[2]), separation, *charges)
@@ -155,6 +168,19 @@ class Thinning(Monitor):
                     ctx.violation("C04", "bound_below_true_rate",
                                   {"where": where, "separation": separation, "charges": charges, "true": true,
                                    "bound": bound, "velocity": list(active[2])})
+
+    # -- the rate a cell-bounded candidate was drawn from -------------------------------------------------------------
+    def on_potential_call(self, potential, name, args, kwargs, result, exc):
+        handler = self.in_event_time
+        if handler is None or exc is not None or name != "displacement" \
+                or type(potential).__name__ != "CellBoundingPotential" or kwargs:
+            return
+        # constant rate inside the cell: time displacement = potential change / (rate * speed)
+        change = args[-1]
+        self.drawn_from[handler] = (change / result) if (result > 0.0 and result != math.inf and change > 0.0) else None
+
+    def on_send_event_time_end(self, handler, args, result):
+        self.in_event_time = None
 
     # -- exact acceptance -----------------------------------------------------------------------------------------------
     def on_send_out_state_begin(self, handler, args):
@@ -188,21 +214,23 @@ class Thinning(Monitor):
         before = self.instate.get(handler)
         if before is None:
             return
-        active, _ = self._pairs(info, before)
-        if active is None:
+        actives, _ = self._pairs(info, before)
+        if actives is None:
             return
+        if not info.root_mode:
+            actives = [actives]
+        active = actives[0]
         after = {}
         for c in walk_cnodes(result):
             rec = unit_record(c.value)
             after[rec[0]] = rec + (not c.children,)
-        if active[0] not in after:
+        if any(a[0] not in after for a in actives):
             return
         accepted = after[active[0]][2] is None
         records = list(after.values())
-        active_after, targets = self._pairs(info, [dict_rec for dict_rec in records]) if not accepted else (None, [])
         # true rate at the event configuration, from a separately constructed potential
-        position = after[active[0]][1]
-        leaves = [r for r in records if r[4] and r[0] != active[0]]
+        active_ids = set(a[0] for a in actives)
+        leaves = [r for r in records if r[4] and r[0] not in active_ids]
         if len(active[0]) == 1:
             targets = leaves
         else:
@@ -210,12 +238,26 @@ class Thinning(Monitor):
         velocity = list(active[2])
         q = 0.0
         b_claimed = 0.0
-        for target in targets:
-            separation = nearest_image(position, target[1])
-            charges = info.charges(ctx, active[0], target[0])
-            q += info.potential.derivative(velocity, separation, *charges)
-            if info.claimed:
-                b_claimed += max(0.0, info.bound.derivative(velocity, separation, *charges))
+        for one in actives:
+            position = after[one[0]][1]
+            for target in targets:
+                separation = nearest_image(position, target[1])
+                charges = info.charges(ctx, one[0], target[0])
+                true_pair = info.potential.derivative(velocity, separation, *charges)
+                q += true_pair
+                if info.claimed:
+                    bound_pair = info.bound.derivative(velocity, separation, *charges)
+                    b_claimed += max(0.0, bound_pair)
+                    if info.root_mode and true_pair > 0.0:
+                        ctx.probes["c04_domination_checks"] += 1
+                        ctx.probes["c04_domination_checks_positive_rate"] += 1
+                        if not bound_pair > 0.0 or bound_pair < true_pair * (1.0 - 1e-12):
+                            ctx.violation("C04", "bound_below_true_rate",
+                                          {"where": "confirmation (pair of leaf units)", "separation": separation,
+                                           "charges": charges, "true": true_pair, "bound": bound_pair,
+                                           "velocity": velocity})
+        if info.root_mode:
+            ctx.probes["c04_root_mode_events"] += 1
         q = max(0.0, q)
         self.rejected_handler = None
         if draw is None:
@@ -229,6 +271,14 @@ class Thinning(Monitor):
             return
         bound, x = draw
         ctx.probes["c04_confirmation_decisions"] += 1
+        drawn_from = self.drawn_from.get(handler)
+        if drawn_from is not None:
+            # cell bounding potential: the confirmation must use the very rate the candidate time was drawn from
+            ctx.probes["c04_cell_bounded_rate_checks"] += 1
+            if abs(bound - drawn_from) > 1e-9 * max(bound, drawn_from):
+                ctx.violation("C04", "confirmation_not_against_the_rate_the_candidate_was_drawn_from",
+                              {"handler": handler.__class__.__name__, "upper_limit": bound,
+                               "rate_of_the_candidate": drawn_from})
         if info.claimed:
             if abs(bound - b_claimed) > 1e-9 * max(bound, b_claimed):
                 ctx.violation("C04", "confirmation_draw_not_scaled_by_the_bound",
